@@ -336,7 +336,15 @@ pub fn run(seed: u64, n: usize, out: &mut dyn Write) {
 
         // ---- train (the program that produced nothing so far: same files, same options, then dictgen on ITS model)
         if env.bin.join("train").exists() && rng.below(2) == 0 {
-            write(&env, "seed_lex.csv", s.lex.as_bytes());
+            // now and then a seed lexicon of several thousand rows: the model image is then well over a megabyte, more than any
+            // writer buffers (a model must be written completely, not up to the first partial write)
+            let mut big_lex = s.lex.clone();
+            if rng.below(4) == 0 {
+                for i in 0..6000 {
+                    big_lex.push_str(&format!("w{i}x,0,0,0,{}\n", ["N,x", "V,y,r1", "N,a,r0"][i % 3]));
+                }
+            }
+            write(&env, "seed_lex.csv", big_lex.as_bytes());
             write(&env, "seed_unk.def", s.unk.as_bytes());
             write(&env, "t_char.def", s.chardef.as_bytes());
             write(&env, "feature.def", s.feature_def.as_bytes());
@@ -346,7 +354,7 @@ pub fn run(seed: u64, n: usize, out: &mut dyn Write) {
             if rng.below(2) == 0 {
                 corpus.push_str(*rng.pick(&["\u{3000}\tN,sp\nEOS\n", " \tN\nEOS\n", "q\t\nEOS\n", "a \tN,x \nEOS\n"]));
             }
-            let s = Setup { lex: s.lex.clone(), chardef: s.chardef.clone(), unk: s.unk.clone(), feature_def: s.feature_def.clone(),
+            let s = Setup { lex: big_lex, chardef: s.chardef.clone(), unk: s.unk.clone(), feature_def: s.feature_def.clone(),
                             rewrite_def: s.rewrite_def.clone(), corpus, user: s.user.clone(), k: s.k, slash: s.slash, rows: vec![] };
             write(&env, "corpus.txt", s.corpus.as_bytes());
             let (st_t, _) = run_bin(
